@@ -837,6 +837,26 @@ pub fn gen_config(r: &mut Rng, lans: &[Lan], clients: &[ClientSpec], allow_polic
             }
         }
     }
+    {
+        /* nested prefixes in the top-level `addresses`: a wider prefix around a LAN's own one,
+         * written after it (the LAN's own prefix is the first match) or before it (the wider one
+         * is); the order they are written in decides, not their size (own stream of draws) */
+        let key = lans.iter().fold(addresses.len() as u64 + 7, |a, l| a.wrapping_mul(31).wrapping_add(u32::from(l.server_ip) as u64));
+        let mut k = Rng::new(key, "cfg-nested-addresses");
+        for lan in lans.iter() {
+            if lan.plen < 22 || !k.chance(0.12) {
+                continue;
+            }
+            let Some(at) = addresses.iter().position(|(a, l): &(Ipv4Addr, u8)| *l == lan.plen && u32::from(*a) & mask(*l) == lan.network()) else { continue };
+            let wl = (lan.plen - k.range(1, 4) as u8).max(18);
+            let wider = (Ipv4Addr::from(lan.network() & mask(wl)), wl);
+            if k.chance(0.6) {
+                addresses.insert(at + 1, wider);
+            } else {
+                addresses.insert(at, wider);
+            }
+        }
+    }
     ConfModel {
         addresses,
         policies,
